@@ -45,11 +45,14 @@ Record blockd := mkB { b_mint : Z; b_maxt : Z; b_hint : bool; b_data : sdata }.
 (* what Head.Init(mv) loads from wal/, wbl/ and chunks_head/:
    h_min / h_max  Head.MinTime() / Head.MaxTime() of a head that was NOT truncated before Init
                   (MaxInt64 / MinInt64 when no in-order data was loaded)
-   h_io           the in-order samples the head tombstones do not cover
-   h_ooo          the out-of-order samples (WBL + m-mapped out-of-order chunks), likewise
-   h_oomin/max    Head.MinOOOTime() / Head.MaxOOOTime() (MaxInt64 / MinInt64 when unset) *)
-Record hdata := mkH { h_min : Z; h_max : Z; h_io : sdata; h_ooo : sdata; h_oomin : Z; h_oomax : Z }.
-Definition hempty : hdata := mkH maxInt64 minInt64 [] [] maxInt64 minInt64.   (* NewHead, never initialised *)
+   h_io           the in-order samples
+   h_ooo          the out-of-order samples (WBL + m-mapped out-of-order chunks)
+   h_oomin/max    Head.MinOOOTime() / Head.MaxOOOTime() (MaxInt64 / MinInt64 when unset)
+   h_tomb         the tombstones replayed from the WAL (series, mint, maxt), BEFORE the final
+                  Head.gc() of Init drops those that end below Head.MinTime() *)
+Record hdata := mkH { h_min : Z; h_max : Z; h_io : sdata; h_ooo : sdata; h_oomin : Z; h_oomax : Z;
+                      h_tomb : list (sid * (Z * Z)) }.
+Definition hempty : hdata := mkH maxInt64 minInt64 [] [] maxInt64 minInt64 [].   (* NewHead, never initialised *)
 
 (* ---------------- strictly increasing merge of candidate timestamps ---------------- *)
 Fixpoint ins (t : Z) (l : list Z) : list Z :=
@@ -126,9 +129,18 @@ End Dir.
 Definition head_gate (v : view) (mint maxt : Z) : bool :=
   (v_minT v <=? maxt) || overlaps mint maxt (h_oomin (v_head v)) (h_oomax (v_head v)).
 
+(* Head.Init ends with Head.gc(): MemTombstones.TruncateBefore(Head.MinTime()) drops the
+   tombstones that end below Head.MinTime() - and Head.MinTime() differs between the two opens *)
+Definition kept (minT : Z) (H : hdata) (i : sid) : list (Z * Z) :=
+  map snd (filter (fun p => (fst p =? i) && (minT <=? snd (snd p))) (h_tomb H)).
+Definition covered (ivs : list (Z * Z)) (t : Z) : bool :=
+  existsb (fun iv => (fst iv <=? t) && (t <=? snd iv)) ivs.
+Definition visible (v : view) (i : sid) (l : list Z) : list Z :=
+  filter (fun t => negb (covered (kept (v_minT v) (v_head v) i) t)) l.
+
 Definition head_cands (v : view) (mint maxt : Z) (i : sid) : list Z :=
-  (if head_gate v mint maxt then get (h_io (v_head v)) i else [])
-  ++ (if overlaps mint maxt (h_oomin (v_head v)) (h_oomax (v_head v)) then get (h_ooo (v_head v)) i else []).
+  (if head_gate v mint maxt then visible v i (get (h_io (v_head v)) i) else [])
+  ++ (if overlaps mint maxt (h_oomin (v_head v)) (h_oomax (v_head v)) then visible v i (get (h_ooo (v_head v)) i) else []).
 
 (* Block.OverlapsClosedInterval *)
 Definition b_overlaps (b : blockd) (mint maxt : Z) : bool := (b_mint b <=? maxt) && (mint <? b_maxt b).
@@ -156,16 +168,18 @@ Definition flush_wal (init : Z -> hdata) (bs : list blockd) (sel : list sid) : o
   let H := init mv in
   let mint := if h_min H <? mv then mv else h_min H in
   let maxt := h_max H in
-  let content := flat_map (fun i => match sort_uniq (filter (in_rng mint maxt) (get (h_io H) i)) with
+  let v := mkV bs mint H in
+  let content := flat_map (fun i => match sort_uniq (filter (in_rng mint maxt) (visible v i (get (h_io H) i))) with
                                     | [] => [] | l => [(i, l)] end) sel in
   match content with
   | [] => None
   | _ => Some (mint, maxt + 1, content)
   end.
 
-(* "exactly that head data": everything the opened head holds, in order and out of order *)
-Definition head_data (H : hdata) (sel : list sid) : answer :=
-  flat_map (fun i => match sort_uniq (get (h_io H) i ++ get (h_ooo H) i) with
+(* "exactly that head data": everything the head of the read-only open shows, in order and out
+   of order *)
+Definition head_data (v : view) (sel : list sid) : answer :=
+  flat_map (fun i => match sort_uniq (visible v i (get (h_io (v_head v)) i) ++ visible v i (get (h_ooo (v_head v)) i)) with
                      | [] => [] | l => [(i, l)] end) sel.
 
 (* ---------------- the file system trace of a read-only session ---------------- *)
